@@ -6,7 +6,7 @@ Import ListNotations.
 
 (* in the harness every delivery really suspends: a connection task that cancelled itself is dead after its next delivery *)
 Definition settle_cancel (s : ist) : ist :=
-  if ecancel s then mkI (gs s) (tp s) TNone (tu s) false (v_reset_dirty s) (v_died s) (cur_open s) (v_leak s) else s.
+  if ecancel s then mkI (gs s) (tp s) TNone (tu s) false (v_reset_dirty s) (v_died s) (cur_open s) (v_leak s) (fac_live s) (v_fleak s) else s.
 (* the pump polls every 0.1 s: after every label it has polled if it was between phases *)
 Definition auto_pump (s : ist) : ist * list delivery :=
   match istep s (LBig Pump) with
@@ -54,15 +54,15 @@ Fixpoint model_at (s : ist) (t : list istepr) (n : nat) : option (option (sstate
   | (l, _, _, _, _) :: r, S k => match istep_settled s l with Some (s', _) => model_at s' r k | None => model_at s r k end
   end.
 
-(* C10: the same schedules, observing only whether a spa object has been dropped without disconnect() (the harness counts the real
-   objects): 0 = the model's v_leak agrees after every step, k+1 = first disagreement at step k *)
-Fixpoint chk_ileaks_from (s : ist) (t : list (ilabel * bool * bool)) : nat :=
+(* C10: the same schedules, observing only whether a spa object, resp. a facade object, has been dropped without disconnect() (the harness
+   counts the real spa objects and its stand-ins for the facade objects): 0 = the model's v_leak agrees after every step, k+1 = first disagreement at step k *)
+Fixpoint chk_ileaks_from (s : ist) (t : list (ilabel * bool * bool * bool)) : nat :=
   match t with
   | [] => O
-  | (l, applicable, leaked) :: r =>
+  | (l, applicable, leaked, fleaked) :: r =>
       match istep_settled s l with
       | None => if applicable then 1 else match chk_ileaks_from s r with O => O | S k => S (S k) end
-      | Some (s', _) => if applicable && Bool.eqb (v_leak s') leaked then match chk_ileaks_from s' r with O => O | S k => S (S k) end else 1
+      | Some (s', _) => if applicable && Bool.eqb (v_leak s') leaked && Bool.eqb (v_fleak s') fleaked then match chk_ileaks_from s' r with O => O | S k => S (S k) end else 1
       end
   end.
-Definition chk_ileaks (configured : bool) (t : list (ilabel * bool * bool)) : nat := chk_ileaks_from (fst (auto_pump (ientered configured))) t.
+Definition chk_ileaks (configured : bool) (t : list (ilabel * bool * bool * bool)) : nat := chk_ileaks_from (fst (auto_pump (ientered configured))) t.
